@@ -314,11 +314,14 @@ public:
     void clear()
     {
         splay_traverse_postorder([this](Node* n) { delete_node(n); }, root_);
+        root_ = nullptr;
     }
 
     //! check if key exists
     bool exists(const Key& k)
     {
+        if (root_ == nullptr)
+            return false;
         root_ = splay(k, root_, cmp_);
         return !cmp_(root_->key, k) && !cmp_(k, root_->key);
     }
